@@ -649,10 +649,11 @@ class Status:
         """
         new_data = {x: self.data[x] for x in self.data}
         # VV: See method docstring
-        if 'error-description' in self.data:
-            self.data['error-description'] = self.data['error-description'].encode('unicode_escape').decode('utf-8')
+        # Escape a copy: escaping self.data in place would escape the text again on every update
+        if 'error-description' in new_data:
+            new_data['error-description'] = new_data['error-description'].encode('unicode_escape').decode('utf-8')
         for key in sorted(new_data):
-            stream.write("%s=%s\n" % (key, self.data[key]))
+            stream.write("%s=%s\n" % (key, new_data[key]))
 
     # Output
     def update(self):
